@@ -1,8 +1,145 @@
 /-
-  C06 — grammar extraction is faithful to the treebank (theorems being added)
+  C06 — grammar extraction is faithful to the treebank
 -/
 import TT.Spec.Grammar
+import TT.Lemmas.Extract
 namespace TT.Props.C06
-open TT TT.Tree TT.Spec
+open TT TT.Tree TT.Spec TT.Lemmas.Extract
+
+/-! ### the nested-dict update adds exactly n to the addressed entry and to nothing else -/
+
+theorem add_gramCount_self (g : Grammar) (f : Func) (l : Lin) (v : VertKey) (n : Nat) :
+    gramCount (g.add f l v n) f l v = gramCount g f l v + n := by
+  unfold gramCount Grammar.add
+  rw [get?_upsert_self]
+  simp only [Option.bind_some, get?_upsert_self]
+  cases h1 : AList.get? f g with
+  | none => simp [get?_nil]
+  | some ls =>
+    simp only [Option.getD_some, Option.bind_some]
+    cases h2 : AList.get? l ls with
+    | none => simp [get?_nil]
+    | some vs => simp
+
+theorem add_gramCount_other (g : Grammar) (f f' : Func) (l l' : Lin) (v v' : VertKey) (n : Nat)
+    (h : (f', l', v') ≠ (f, l, v)) : gramCount (g.add f l v n) f' l' v' = gramCount g f' l' v' := by
+  unfold gramCount Grammar.add
+  by_cases hf : f' = f
+  · subst hf
+    rw [get?_upsert_self]
+    simp only [Option.bind_some]
+    by_cases hl : l' = l
+    · subst hl
+      have hv : v' ≠ v := by rintro rfl; exact h rfl
+      rw [get?_upsert_self]
+      simp only [Option.bind_some]
+      rw [get?_upsert_other _ _ _ hv]
+      cases h1 : AList.get? f' g with
+      | none => simp [get?_nil]
+      | some ls =>
+        simp only [Option.getD_some, Option.bind_some]
+        cases h2 : AList.get? l' ls with
+        | none => simp [get?_nil]
+        | some vs => simp
+    · rw [get?_upsert_other _ _ _ hl]
+      cases h1 : AList.get? f' g with
+      | none => simp [get?_nil]
+      | some ls => simp
+  · rw [get?_upsert_other _ _ _ hf]
+
+theorem add_total (g : Grammar) (f : Func) (l : Lin) (v : VertKey) (n : Nat) :
+    Grammar.total (g.add f l v n) = Grammar.total g + n :=
+  grammar_add_total g f l v n
+
+theorem lex_add_total (x : Lexicon) (w t : Str) (n : Nat) : Lexicon.total (x.add w t n) = Lexicon.total x + n :=
+  lexicon_add_total x w t n
+
+theorem lex_add_count_self (x : Lexicon) (w t : Str) (n : Nat) : lexCount (x.add w t n) w t = lexCount x w t + n := by
+  unfold lexCount Lexicon.add
+  rw [get?_upsert_self]
+  simp only [Option.bind_some, get?_upsert_self]
+  cases h1 : AList.get? w x with
+  | none => simp [get?_nil]
+  | some ls => simp
+
+theorem lex_add_count_other (x : Lexicon) (w t w' t' : Str) (n : Nat) (h : (w', t') ≠ (w, t)) :
+    lexCount (x.add w t n) w' t' = lexCount x w' t' := by
+  unfold lexCount Lexicon.add
+  by_cases hw : w' = w
+  · subst hw
+    have ht : t' ≠ t := by rintro rfl; exact h rfl
+    rw [get?_upsert_self]
+    simp only [Option.bind_some]
+    rw [get?_upsert_other _ _ _ ht]
+    cases h1 : AList.get? w' x with
+    | none => simp [get?_nil]
+    | some ls => simp
+  · rw [get?_upsert_other _ _ _ hw]
+
+/-! ### one rule occurrence per constituent, one lexicon occurrence per token -/
+
+theorem events_rules (ctx : List Str) (t : Tree) (h : t.noEmpty = true) :
+    ((events ctx t).filter isRule).length = (t.subtrees.filter fun s => !s.isLeaf).length := by
+  rw [← List.countP_eq_length_filter, ← List.countP_eq_length_filter]
+  exact events_rules_countP t ctx h
+
+theorem events_lex (ctx : List Str) (t : Tree) (h : t.noEmpty = true) :
+    ((events ctx t).filter (fun e => !isRule e)).length = t.leafNums.length := by
+  rw [← List.countP_eq_length_filter]
+  exact events_lex_countP t ctx h
+
+theorem extract_total (t : Tree) (st : Grammar × Lexicon) (h : t.noEmpty = true) :
+    Grammar.total (extract t st).1 = Grammar.total st.1 + (t.subtrees.filter fun s => !s.isLeaf).length ∧
+    Lexicon.total (extract t st).2 = Lexicon.total st.2 + t.leafNums.length := by
+  obtain ⟨h1, h2⟩ := foldl_applyEvent_total (events [] t) st
+  unfold extract
+  rw [h1, h2, events_rules_countP t [] h, events_lex_countP t [] h, List.countP_eq_length_filter]
+  exact ⟨rfl, rfl⟩
+
+/-- `extractAll` from an arbitrary start state -/
+theorem foldl_extract_total (ts : List Tree) (h : ∀ t ∈ ts, t.noEmpty = true) : ∀ st : Grammar × Lexicon,
+    Grammar.total (ts.foldl (fun st t => extract t st) st).1 =
+      Grammar.total st.1 + (ts.map fun t => (t.subtrees.filter fun s => !s.isLeaf).length).sum ∧
+    Lexicon.total (ts.foldl (fun st t => extract t st) st).2 =
+      Lexicon.total st.2 + (ts.map fun t => t.leafNums.length).sum := by
+  induction ts with
+  | nil => intro st; simp
+  | cons t ts ih =>
+    intro st
+    obtain ⟨h1, h2⟩ := ih (fun t' ht' => h t' (List.mem_cons_of_mem _ ht')) (extract t st)
+    obtain ⟨h3, h4⟩ := extract_total t st (h t List.mem_cons_self)
+    simp only [List.foldl_cons, List.map_cons, List.sum_cons]
+    rw [h1, h2, h3, h4]
+    omega
+
+theorem extractAll_total (ts : List Tree) (h : ∀ t ∈ ts, t.noEmpty = true) :
+    Grammar.total (extractAll ts).1 = (ts.map fun t => (t.subtrees.filter fun s => !s.isLeaf).length).sum ∧
+    Lexicon.total (extractAll ts).2 = (ts.map fun t => t.leafNums.length).sum := by
+  obtain ⟨h1, h2⟩ := foldl_extract_total ts h ([], [])
+  unfold extractAll
+  rw [h1, h2]
+  simp [Grammar.total, Grammar.entries, Lexicon.total]
+
+/-! ### the rule of a node -/
+
+theorem funcOf_spec (t : Tree) : funcOf t = t.fields.label :: (children t).map (·.fields.label) := rfl
+
+theorem linOf_length (t : Tree) : (linOf t).length = t.blocks.length :=
+  linOfBlocks_length _ _ _
+
+theorem fanOut_head (t : Tree) : (fanOut (linOf t)).head? = some t.blocks.length := by
+  simp [fanOut, linOf_length]
+
+/-- context-free iff continuous, for one tree -/
+theorem linOf_cf_iff (f : Fields) (ks : List Tree) (h : (node f ks).leafNums ≠ []) :
+    (linOf (node f ks)).length ≤ 1 ↔ gapDegreeNode (node f ks) = 0 := by
+  rw [linOf_length, TT.Props.C16.gapDegreeNode_zero_iff f ks h]
+  have hy := TT.Lemmas.WF.yield_ne_nil _ h
+  unfold blocks
+  cases hc : yield (node f ks) with
+  | nil => exact absurd hc hy
+  | cons a l =>
+    have := TT.Props.C16.blocksOf_length_pos a l
+    omega
 
 end TT.Props.C06
